@@ -55,14 +55,19 @@ DirClauses(d) ==
     <<"C02-tmp-files", SeqSet(E.tmp) # ({cur'[d]} \ {0})>>,
     <<"final-file-set-new", {E.newf[i].j : i \in 1..Len(E.newf)} # fin'[d] \ fin[d]>>,
     <<"C05-final-file-changed", E.changed # <<>>>>})
-  \cup FilesClauses(d, E.newf, s.pid, E.uuid, tseq)
+  \cup (IF \E i \in 1..Len(E.newf) : E.newf[i].j \notin 1..NW
+        THEN {"C04-file-outside-the-written-period"}      \* a file for a period no accepted call touched
+        ELSE FilesClauses(d, E.newf, s.pid, E.uuid, tseq))
+
+NotObserved == 0 - 1   \* the C API has no written / gap counters
+Crashed == Has(E, "resp") /\ E.resp = "crash"
 
 CounterClauses ==
   IF s'.stale THEN {}
   ELSE Names({
     <<"C19-next-available-sample", E.next # s'.next>>,
-    <<"C19-total-samples-written", E.written # s'.written>>,
-    <<"C19-total-gap-samples", E.gaps # s'.gaps>>,
+    <<"C19-total-samples-written", E.written # NotObserved /\ E.written # s'.written>>,
+    <<"C19-total-gap-samples", E.gaps # NotObserved /\ E.gaps # s'.gaps>>,
     <<"C19-last-file-written", E.lastw # s'.lastw>>})
 
 TOpen ==
@@ -94,7 +99,8 @@ TBad ==
           /\ AdvNote(Names({<<"C05-rejected-call-changed-files", ~E.same>>})
                      \cup (IF s.stale THEN {} ELSE
                            Names({<<"C05-rejected-call-changed-position", E.next # s.next>>,
-                                  <<"C05-rejected-call-changed-counters", E.written # s.written \/ E.gaps # s.gaps>>})))
+                                  <<"C05-rejected-call-changed-counters",
+                                    E.written # NotObserved /\ (E.written # s.written \/ E.gaps # s.gaps)>>})))
 
 TEmpty ==
   /\ E.ev = "empty"
@@ -102,13 +108,14 @@ TEmpty ==
   /\ AdvNote(Names({<<"C05-empty-write-changed-files", ~E.same>>})
              \cup (IF s.stale THEN {} ELSE
                    Names({<<"C19-next-available-sample", E.next # s.next>>,
-                          <<"C19-total-samples-written", E.written # s.written>>,
-                          <<"C19-total-gap-samples", E.gaps # s.gaps>>})))
+                          <<"C19-total-samples-written", E.written # NotObserved /\ E.written # s.written>>,
+                          <<"C19-total-gap-samples", E.gaps # NotObserved /\ E.gaps # s.gaps>>})))
 
 TClose ==
   /\ E.ev = "close"
   /\ Close /\ tseq' = LastSeq(E.newf, tseq)
-  /\ AdvNote(DirClauses(s.d) \cup (IF s.stale THEN {} ELSE Names({<<"C19-last-file-written", E.lastw # s.lastw>>})))
+  /\ AdvNote(DirClauses(s.d) \cup (IF s.stale THEN {} ELSE Names({<<"C19-last-file-written", E.lastw # s.lastw>>}))
+             \cup Names({<<"C05-c-api-crash-or-sanitizer-report", Has(E, "crash") /\ E.crash>>}))
 
 TRegen == /\ E.ev = "regen" /\ UNCHANGED tseq
           /\ IF ~s.open /\ E.j \in fin[E.d] THEN RegenProps(E.d, E.j) /\ AdvNote(Names({<<"C06-regeneration-failed", ~E.ok>>}))
@@ -145,8 +152,11 @@ TVector ==
 TOther == /\ E.ev \notin {"open", "write", "bad", "empty", "close", "regen", "bounds", "read", "vector"}
           /\ Rej({"unknown-event"}) /\ UNCHANGED <<vars, tseq>>
 
+TCrash == /\ Crashed /\ Rej({"C05-c-api-crash-or-sanitizer-report"}) /\ UNCHANGED <<vars, tseq>>
+
 TNext ==
-  \/ HasEvent /\ (TOpen \/ TWrite \/ TBad \/ TEmpty \/ TClose \/ TRegen \/ TBounds \/ TRead \/ TVector \/ TOther)
+  \/ HasEvent /\ Crashed /\ TCrash
+  \/ HasEvent /\ ~Crashed /\ (TOpen \/ TWrite \/ TBad \/ TEmpty \/ TClose \/ TRegen \/ TBounds \/ TRead \/ TVector \/ TOther)
   \/ Finish /\ UNCHANGED <<vars, tseq>>
 TSpec == TInit /\ [][TNext]_allvars
 TraceInvariant == Running => (TypeOK /\ InWindow /\ Counters)
